@@ -682,6 +682,9 @@ class TorchBackendProvider(BackendProvider):
             return a.pow(b)
         # For numpy arrays or scalars
         a_val = float(a) if isinstance(a, (int, numpy.integer)) else a
+        if isinstance(b, torch.Tensor) and b.requires_grad:
+            # the exponent is being differentiated: taking its value out of the tensor would cut it out of the graph
+            return torch.pow(torch.as_tensor(a_val, dtype=b.dtype, device=b.device), b)
         b_val = b.item() if isinstance(b, torch.Tensor) and b.ndim == 0 else (b.cpu().numpy() if isinstance(b, torch.Tensor) else b)
         return numpy.power(a_val, b_val)
 
